@@ -9,7 +9,7 @@ import cases as C  # noqa
 import corr  # noqa
 from lib import f32, f2h, h2f  # noqa
 
-MODULES = ["InovesaModel.Props.C09", "InovesaModel.Props.Tie"]
+MODULES = ["InovesaModel.Props.C09", "InovesaModel.Props.TieMoments", "InovesaModel.Props.TieRuler"]
 LEVEL = "proof"
 U = 2.0 ** -24
 OPS = ["x", "y", "i", "n", "N", "a0", "a1", "v0", "v1", "c", "p"]
